@@ -219,6 +219,10 @@ impl Iterator for CronSchedule {
         let now = DateTime::now().clear_until_second();
         #[cfg(test)]
         let now = self.now.unwrap_or(DateTime::now()).clear_until_second();
+        #[cfg(feature = "astrolabe_verif")]
+        let now = crate::verif_hooks::cron_now()
+            .map(|pinned| pinned.clear_until_second())
+            .unwrap_or(now);
 
         let last = match self.last_schedule {
             Some(last) if last >= now => last,
